@@ -333,7 +333,8 @@ class Concurrent(SubCheck):
                 init_calls.append((p, caches[0].push(mkv(v), prefix=p), v))
             return caches, caches
 
-        calls, sched = run_scheduled(env, progs, case['schedule'], open_clients, do_conc, 'C10', warm=lambda c: c._sql)
+        finals = [('pull', pfx, 'front') for pfx in (['q'] if case['one_prefix'] else CPREFIXES) for _ in range(6)]
+        calls, sched = run_scheduled(env, progs, case['schedule'], open_clients, do_conc, 'C10', warm=lambda c: c._sql, final_ops=finals)
         if sched.limit_hit:
             return {'nontrivial': False, 'classes': ['step-limit']}
         mark_interleaved(calls, sched.trace)
